@@ -21,11 +21,12 @@ underlying byte string; a frame `(off, data)` is *consistent* when `data[j] = sr
 -/
 import Uquic.Proofs.SorterPop
 import Uquic.Proofs.StreamOps
+import Uquic.Proofs.CryptoGlue
 import Uquic.Model.Reassembly.ReceiveStream
 import Uquic.Model.Reassembly.Crypto
 
 namespace Uquic.Props.C03
-open Uquic.Model.Reassembly Uquic.Proofs.Sorter Uquic.Proofs.Stream
+open Uquic.Model.Reassembly Uquic.Proofs.Sorter Uquic.Proofs.Stream Uquic.Proofs.Crypto
 
 /-! ## 1. push refines the abstract received set -/
 
@@ -361,6 +362,66 @@ theorem stream_reads_source (src : Nat → UInt8) (fc : FC) (h0 : fc.highest = 0
 /-- a non-trivial stream history: out-of-order frames with FIN, partial reads, a peek, EOF at size 5 -/
 example : (runSt (fun i => UInt8.ofNat (i + 1)) { window := 100, windowSize := 100, conn := { window := 100, windowSize := 100 } }
     [.frame 3 2 true (some 1), .read 4, .frame 0 3 false (some 2), .peek 2, .read 2, .read 10]).out = [1, 2, 3, 4, 5] := by
+  decide
+
+/-! ## 7. the crypto stream behind the packet glue (`Conn.handleFrames` / `Conn.handleCryptoFrame`) -/
+
+/-- **crypto glue (one frame).** `HandleCryptoFrame` followed by the `GetCryptoData` drain loop, for a
+consistent frame inside the crypto buffer limit on an open stream whose sorter satisfies `Inv`: never
+panics; unless the gap limit is hit, `Inv` holds again, the messages handed to the TLS stack are exactly
+the source bytes from the old to the new read position, nothing deliverable is left in the queue, and the
+recorded highest offset is the *maximum* of the old one and the frame's end. -/
+theorem crypto_handle_and_drain {src : Nat → UInt8} (s : CryptoStream) (h : Inv src s.queue) (off len : Nat)
+    (hopen : s.finished = false) (hlim : off + len ≤ maxCryptoStreamOffset) :
+    ((s.handleAndDrain off (srcSeg src off len)).2.1 = none ∨ (s.handleAndDrain off (srcSeg src off len)).2.1 = some .tooManyGaps) ∧
+    ((s.handleAndDrain off (srcSeg src off len)).2.1 = none →
+      Inv src (s.handleAndDrain off (srcSeg src off len)).1.queue ∧
+      (s.handleAndDrain off (srcSeg src off len)).2.2.flatten =
+        srcSeg src s.queue.readPos ((s.handleAndDrain off (srcSeg src off len)).1.queue.readPos - s.queue.readPos) ∧
+      qget (s.handleAndDrain off (srcSeg src off len)).1.queue.queue (s.handleAndDrain off (srcSeg src off len)).1.queue.readPos = none ∧
+      (s.handleAndDrain off (srcSeg src off len)).1.highestOffset = max s.highestOffset (off + len)) := by
+  obtain ⟨a1, a2⟩ := handleAndDrain_spec s h off len hopen hlim
+  refine ⟨a1, fun he => ?_⟩
+  obtain ⟨b1, _, b3, b4, _, b6⟩ := a2 he
+  exact ⟨b1, b3, b4, b6⟩
+
+/-- **crypto glue (one packet).** All CRYPTO frames of a packet, in packet order, every one accepted: the
+messages handed to TLS, concatenated, are exactly the source bytes from the old to the new read position. -/
+theorem crypto_packet_delivers_source {src : Nat → UInt8} (frames : List (Nat × Nat)) (s : CryptoStream)
+    (h : Inv src s.queue) (hopen : s.finished = false) (hlim : ∀ f ∈ frames, f.1 + f.2 ≤ maxCryptoStreamOffset)
+    (hok : ∀ r ∈ (s.handlePacket (frames.map fun f => (f.1, srcSeg src f.1 f.2))).2.1, r = none) :
+    Inv src (s.handlePacket (frames.map fun f => (f.1, srcSeg src f.1 f.2))).1.queue ∧
+    (s.handlePacket (frames.map fun f => (f.1, srcSeg src f.1 f.2))).2.2.flatten =
+      srcSeg src s.queue.readPos
+        ((s.handlePacket (frames.map fun f => (f.1, srcSeg src f.1 f.2))).1.queue.readPos - s.queue.readPos) := by
+  obtain ⟨c1, _, c3⟩ := handlePacket_spec frames s h hopen hlim hok
+  exact ⟨c1, c3⟩
+
+/-- **highest offset = maximum.** Over every history of CRYPTO frames (any order), `GetCryptoData` and
+`Finish`: the recorded highest offset is at least the end of every frame that was handled while the
+stream was open. -/
+theorem crypto_highest_is_max (ops : List COp) : ∀ hi ∈ (crun ops).acc, hi ≤ (crun ops).s.highestOffset :=
+  crun_inv ops
+
+/-- **retransmissions after Finish are ignored.** After any such history that ended with the stream
+finished, a CRYPTO frame that ends at or below the end of *any* frame handled while the stream was open —
+a retransmission with the same or with different boundaries, whatever the arrival order was — is ignored
+without an error and without changing the stream; PROTOCOL_VIOLATION is reserved for data above the
+highest offset (`crypto_after_finish`). -/
+theorem crypto_retransmission_after_finish_ignored (ops : List COp) (hf : (crun ops).s.finished = true)
+    (off : Nat) (data : Bytes) (hi : Nat) (hacc : hi ∈ (crun ops).acc) (hle : off + data.length ≤ hi)
+    (hlim : off + data.length ≤ maxCryptoStreamOffset) :
+    (crun ops).s.handleCryptoFrame off data = ((crun ops).s, none) := by
+  have h1 := crun_inv ops hi hacc
+  rw [crypto_after_finish _ off data hf hlim]
+  have : ¬ off + data.length > (crun ops).s.highestOffset := by omega
+  simp [this]
+
+/-- a non-trivial instance: three frames arrive in the order 3rd, 2nd, 1st, are read, the stream is
+finished, and a retransmission of the 3rd frame is ignored -/
+example :
+    let ops : List COp := [.frame 6 [7, 8, 9], .frame 3 [4, 5, 6], .frame 0 [1, 2, 3], .get, .get, .get, .finish]
+    (crun ops).s.finished = true ∧ (crun ops).s.handleCryptoFrame 6 [7, 8, 9] = ((crun ops).s, none) := by
   decide
 
 end Uquic.Props.C03
